@@ -727,6 +727,20 @@ ATOMIC_MUTATORS = {"faceAddEdge", "faceProjectEdge", "opAddSideEdge", "opProject
                    "blockAddEdge", "frameAddBeam", "lengthRatio"}  # fmt: skip
 
 
+# clauses of the catalogue that the library enforces only by accident (no docstring, no guard on that argument): the
+# class of the exception that happens to come out (ZeroDivisionError of `2π / n_segments`, IndexError of an empty
+# list of faces, whatever scipy says about a NaN axis) is not judged
+UNDOCUMENTED_CLAUSES = {
+    "Annulus.__init__:fewer-than-2-segments",
+    "Annulus.__init__:zero-normal-or-radius-vector",
+    "Cylinder.__init__:zero-axis-or-radius-vector",
+    "Frustum.__init__:zero-axis-or-radius-vector",
+    "Cylinder.chain:zero-length",
+    "Frustum.chain:zero-length",
+    "ExtrudedRing.chain:zero-length",
+}
+
+
 def name_atomic(name: str) -> bool:
     return name in ATOMIC_MUTATORS
 
@@ -1604,6 +1618,20 @@ class C20(core.Check):
                         "expected": "an exception",
                     }
                 )
+            # a rejection is of an admissible class (the property names them: the library's creation errors, value, key
+            # or runtime errors) — judged where the violated clause is documented (see UNDOCUMENTED_CLAUSES)
+            if not ok and site not in UNDOCUMENTED_CLAUSES:
+                bad = [o for o in outs if o != "accepted" and o not in LISTED]
+                if bad:
+                    out.append(
+                        {
+                            "site": site + ":rejected-with-" + bad[0],
+                            "what": f"{case['name']} {[str(x) for x in case['r']]} {case['s']} violates the documented "
+                            f"precondition and is refused with a bare {bad[0]}, not with one of the documented error classes",
+                            "observed": got,
+                            "expected": "a creation error of the library, ValueError, KeyError or RuntimeError",
+                        }
+                    )
             if name_atomic(case["name"]) and impl.get("unchanged") is False:
                 out.append(
                     {
